@@ -284,13 +284,23 @@ type seekBody struct {
 	closed atomic.Int32
 }
 
+var errBodyClosed = errors.New("seekBody: file already closed")
+
 func (s *seekBody) Read(p []byte) (int, error) {
+	if s.closed.Load() > 0 {
+		return 0, errBodyClosed // like *os.File: once closed, the body cannot be replayed
+	}
 	if len(p) > 1500 {
 		p = p[:1500] // small reads, as a file or network source would give
 	}
 	return s.r.Read(p)
 }
-func (s *seekBody) Seek(o int64, w int) (int64, error) { return s.r.Seek(o, w) }
+func (s *seekBody) Seek(o int64, w int) (int64, error) {
+	if s.closed.Load() > 0 {
+		return 0, errBodyClosed
+	}
+	return s.r.Seek(o, w)
+}
 func (s *seekBody) Close() error                        { s.closed.Add(1); return nil }
 
 // streamBody is a plain (non-seekable) stream.
